@@ -7,6 +7,7 @@
    rejected (Props/C10.v), and the inputs that used to crash no longer do (in the model; the
    implementation is run on the same inputs on every check). *)
 From JS Require Import Base Bytes Scanner ScanRun Directive Core Entry C01Proofs ScanTotal StackSafe.
+From JS Require ScanTerm.
 From JS Require Import Expand Catalog CatalogTotal ExpandPlaced ScanPlaced.
 From JS Require ScannerProg.
 From JS Require IncludeName Inventory InventoryExpected.
@@ -35,6 +36,23 @@ Theorem C01_scanner_never_pops_an_empty_stack :
     let '(_, e, _) := lex_traj data tbl fuel (init_conf ScannerProg.initial_state) in
     e <> EndPanic PStepStackEmpty.
 Proof. exact scanner_never_pops_an_empty_stack. Qed.
+
+(* the scanner terminates, for EVERY input and every oracle answer: scanning a whole file never
+   runs out of the 8*len+64 calls of Next(), and on every configuration reached by any number of
+   Next() calls, Next() returns - it exhausts neither its 8*len+64 loop iterations nor the 8 nested
+   step invocations per byte.  Shape of the return-state stack and a potential
+   8*curIndex + w(s.step) - #pending events inferred from the regenerated program, checked by
+   symbolic execution of every path (calls and re-dispatches inlined, every possible popped state),
+   checker proved sound (Proofs/ScanTerm.v). *)
+Theorem C01_scanning_a_file_terminates :
+  forall data tbl, let '(_, e, _) := scan_case data tbl in e <> EndFuel.
+Proof. exact ScanTerm.whole_file_scan_terminates. Qed.
+
+Theorem C01_next_always_returns :
+  forall data tbl fuel,
+    let '(_, _, tr) := lex_traj data tbl fuel (init_conf ScannerProg.initial_state) in
+    Forall (fun c => the_next data tbl c <> RFuel) (init_conf ScannerProg.initial_state :: tr).
+Proof. intros data tbl fuel. apply ScanTerm.next_always_returns. exact ScanTerm.init_inv. Qed.
 
 (* the catalog builder: on every forest whose nesting follows the (regenerated) context table -
    which is what the directive layer produces, Props/C11.v - with the MACROs expanded away, the
@@ -104,6 +122,8 @@ Print Assumptions C01_scanner_never_pops_an_empty_stack.
 Print Assumptions C01_catalog_builder_never_reaches_an_impossible_state.
 Print Assumptions C01_expanded_forest_is_well_nested.
 Print Assumptions C01_catalog_builder_is_total_after_expansion.
+Print Assumptions C01_scanning_a_file_terminates.
+Print Assumptions C01_next_always_returns.
 Print Assumptions C01_scanned_forest_is_well_nested.
 Print Assumptions C01_catalog_builder_is_total_on_every_scanned_project.
 Print Assumptions C01_no_nil_current_directive.
